@@ -164,6 +164,11 @@ def build_valid(ctx, schemes):
     return keep, objs
 
 
+def _mk_scheme_local(s):
+    from ..lib import mk_scheme
+    return mk_scheme(s)
+
+
 def run_equiv(ctx, sh):
     schemes, objs = build_valid(ctx, spaces.schemes_over(sh['values']))
     n6 = [norm(s, 6) for s in schemes]
@@ -185,12 +190,30 @@ def run_equiv(ctx, sh):
                 ctx.violation('nickname', {'cfg': {}, 'kind': 'nick', 'a': schemes[i]}, nick, want)
             if nick_exp is not None:
                 ctx.count('nicknamed_schemes')
+        # nickname asked after the object has answered every other kind of query
+        if len(schemes) > 0:
+            try:
+                a3 = _mk_scheme_local(schemes[i])
+                a3.is_equivalent_to_on_complete_rankings_only(objs[0])
+                a3.is_equivalent_to(objs[-1])
+                want = nick_exp if nick_exp is not None else str(a3)
+                if a3.get_nickname() != want:
+                    ctx.violation('nickname-depends-on-earlier-queries', {'cfg': {}, 'kind': 'nick', 'a': schemes[i]},
+                                  a3.get_nickname(), want)
+            except Exception as e:
+                ctx.violation('nickname-raises', {'cfg': {}, 'kind': 'nick', 'a': schemes[i]}, None, None, exc=e)
+        # a second object for the same scheme whose FIRST query is the complete-rankings-only one (the answers must
+        # not depend on which question an object was asked first)
+        from ..lib import mk_scheme as _mk
+        a2 = _mk(schemes[i])
         for j in range(len(schemes)):
             b = objs[j]
-            ctx.evals += 2
+            ctx.evals += 4
             try:
                 e6 = a.is_equivalent_to(b)
                 e3 = a.is_equivalent_to_on_complete_rankings_only(b)
+                f3 = a2.is_equivalent_to_on_complete_rankings_only(b)
+                f6 = a2.is_equivalent_to(b)
             except Exception as e:
                 ctx.violation('equivalence-raises', {'cfg': {}, 'kind': 'equiv', 'a': schemes[i], 'b': schemes[j]},
                               None, None, exc=e)
@@ -204,6 +227,10 @@ def run_equiv(ctx, sh):
             if e3 is not x3:
                 ctx.violation('is_equivalent_on_complete', {'cfg': {}, 'kind': 'equiv', 'a': schemes[i],
                                                             'b': schemes[j]}, e3, x3)
+            if f6 is not x6 or f3 is not x3:
+                ctx.violation('equivalence-depends-on-query-order', {'cfg': {}, 'kind': 'equiv', 'a': schemes[i],
+                                                                     'b': schemes[j], 'order': 'complete-only first'},
+                              [f3, f6], [x3, x6])
             if x3 and not x6:
                 ctx.count('pairs_equivalent_on_complete_only')
     ctx.outcome(('equiv', sh['shard']))
